@@ -269,6 +269,23 @@ func collectPoolAlarms() {
 }
 
 func runLifeMode(mode string, r *vlib.Rand, keys map[string]struct{}) {
+	if mode == "c07" || mode == "c19" {
+		// failed starts: the k-th epoll_create1 / eventfd / epoll_ctl ADD of the start-up fails
+		n := int64(0)
+		for _, client := range []bool{false, true} {
+			for _, call := range []int{vsys.CEpollCreate, vsys.CEventfd, vsys.CEpollAdd} {
+				for k := int64(1); k <= 3; k++ {
+					c := cfg{Loops: 2, Net: "tcp", RCap: 1024, WCap: 1024, ReusePort: k%2 == 0}
+					if runStartFailCase(c, res.Seed+uint64(k), call, k, client, keys) {
+						n++
+					}
+				}
+			}
+		}
+		res.Eval(n)
+		res.Obs("failed_start_cases_reached", n)
+		res.Checkpoint()
+	}
 	sources := []string{"Engine.Stop", "Stop", "OnOpen", "OnTraffic", "OnClose", "OnTick", "accept-error"}
 	moments := []string{"idle", "connect-storm", "traffic"}
 	ncase := 16
